@@ -28,8 +28,8 @@ SIG_LOOK = "parse_tree: node of a selected rule inside a selected at<> spans bey
 
 TRANSFORMS = ["store_content", "remove_content", "fold_one", "discard_empty"]
 HSELS = ["h%d" % i for i in range(8)]
-ACT_CPP = {"0": "vh::act0", "5": "c12::act_5", "t": "c12::act_t", "mi": "vh::act0"}
-CTL_CPP = {"0": "c12::ctl_in", "5": "c12::ctl_in", "t": "c12::ctl_in", "mi": "c12::ctl_mi"}
+ACT_CPP = {"0": "vh::act0", "5": "c12::act_5", "t": "c12::act_t", "mi": "vh::act0", "v": "c12::act_v"}
+CTL_CPP = {"0": "c12::ctl_in", "5": "c12::ctl_in", "t": "c12::ctl_in", "mi": "c12::ctl_mi", "v": "c12::ctl_in"}
 
 
 # --------------------------------------------------------------------------- corpus
@@ -100,9 +100,9 @@ def c12_family(quick=False):
                  mix={"X": "store_content", "Y": "discard_empty"}))
     # runs aborted by exceptions; try_catch continuing after a catch
     out.append(G([("X", A), ("Y", B), ("Z", C)], "seq< sor< try_catch_return_false< seq< X, must< Y > > >, seq< X, Z > >, opt< X > >", ["catch", "raise"],
-                 mix={"X": "store_content", "Y": "store_content", "Z": "fold_one", "G": "store_content"}, acts=("0", "5", "mi")))
+                 mix={"X": "store_content", "Y": "store_content", "Z": "fold_one", "G": "store_content"}, acts=("0", "5", "mi", "v")))
     out.append(G([("X", A), ("Y", B)], "star< sor< try_catch_any_return_false< seq< X, if_must< Y, X > > >, X, Y > >", ["catch", "raise"],
-                 mix={"X": "store_content", "Y": "remove_content"}, acts=("0", "5", "mi")))
+                 mix={"X": "store_content", "Y": "remove_content"}, acts=("0", "5", "mi", "v")))
     out.append(G([("X", A), ("Y", B)], "seq< X, must< sor< Y, seq< X, raise< Y > > > >, opt< X > >", ["raise"],
                  mix={"X": "discard_empty", "Y": "store_content", "G": "fold_one"}, acts=("0", "mi")))
     # the recorded finding: the rule's own action throws, try_catch continues
@@ -150,6 +150,8 @@ def plan(tier, seed):
                 g.acts.append("5")
             if i % 5 == 0:
                 g.acts.append("mi")
+            if i % 3 == 1:
+                g.acts.append("v")       # vetoing bool actions: a vetoed match must leave no node
         nh = 1 if tier == "quick" else 2
         hs = [HSELS[(i * 3 + j * 5 + seed) % 8] for j in range(nh)]
         base = ["all", "named", "mix"] if ((("c12" in g.tags) and ("deep" not in g.tags)) or tier != "quick" or i % 3 == 0) else ["all", "mix"]
